@@ -22,6 +22,8 @@ Definition sx_item (x : sx) : option item :=
   | SL [SI 6; SS s] => Some (IStamp s)
   | SL [SI 7; c; SS n] => match sx_bool c with Some b => Some (IUnk b n) | None => None end
   | SL [SI 8; SS n; SI c] => Some (IEnt n c)
+  | SL [SI 9; SS s] => Some (ICom s)
+  | SL [SI 10; SS s] => Some (IPi s)
   | _ => None
   end.
 Definition sx_items := sx_listof sx_item.
@@ -105,7 +107,7 @@ Definition dispatch (code : Z) (arg : sx) : option sx :=
   | 408 => Some (match arg with
                  | SL [its; obs] =>
                      match sx_items its, sx_strs obs with
-                     | Some l, Some o => of_bool (ok_lines (display l) o)
+                     | Some l, Some o => of_bool (ok_lines_a (display l) o)
                      | _, _ => bad end
                  | _ => bad end)
   | 409 => Some (match arg with
